@@ -220,6 +220,18 @@ def activate(role=None, extra=None):
             _fs.SoftFileLock._try_break_stale_lock = lambda self: None
         except Exception:
             pass
+    else:
+        # The installed filelock removes an unparsable lock file (JADE's deliberate "deadlock" file is empty) once it is
+        # 2 s old, comparing time.time() with the file's mtime.  Under virtual time that mixes two clocks and made the
+        # outcome depend on real time; any contender may have been delayed by 2 s, so the file always counts as old enough.
+        try:
+            import types
+
+            import filelock._soft as _fs
+
+            _fs.time = types.SimpleNamespace(time=lambda: float("inf"), sleep=_time.sleep)
+        except Exception:
+            pass
     _state["active"] = True
     hello = {
         "pid": os.getpid(),
